@@ -78,14 +78,13 @@ MEMBERSHIP = {
 }
 
 
-def r10(ctx):
+def r10(ctx, R='R09.10'):
     """R09.10 a stored track stays stored until it is fetched or the store is cleared: the key set of a shard map is
     changed only by add_track / add (insert), fetch_tracks (remove) and clear.  A worker arm or any other function
     that takes a track out of its shard - even to put it back a moment later - makes it invisible to fetches, scans,
     counts and the duplicate-id test in between."""
     import ownership
     import wiring
-    R = 'R09.10'
     ctx.rule(R, 'who-may-change-membership: only add_track/add insert into, fetch_tracks removes from, clear empties a shard map')
     F = ctx.F
     callers = F.callers()
